@@ -546,6 +546,17 @@ func (s *scn) amount(from *Key, class string) string {
 		return "1"
 	case "exact":
 		return bal.String()
+	case "nearly":
+		// leaves the sender with less than the fee of this very transfer (about half of it): the fee stage takes
+		// "the sender's whole remaining balance"
+		left := new(big.Int).SetUint64(s.cfg.World.GasPrice * 10000)
+		if left.Sign() == 0 || left.Cmp(bal) >= 0 {
+			left = big.NewInt(1)
+		}
+		if bal.Cmp(left) <= 0 {
+			return bal.String()
+		}
+		return new(big.Int).Sub(bal, left).String()
 	case "over":
 		return new(big.Int).Add(bal, big.NewInt(1)).String()
 	case "huge":
@@ -1268,5 +1279,24 @@ func (s *scn) pokeViews() {
 	if len(q) > 0 {
 		s.reps[0].viewCall(q...)
 		s.res.Count("fault_api_queries_while_competing_block_is_head")
+	}
+	// a pier (re)connects and asks the router for the head it finds
+	switch s.prop {
+	case "C02", "C05", "C06":
+		if rt := s.reps[0].router(); rt != nil {
+			h := s.reps[0].height
+			for _, c := range s.chains {
+				ch := make(chan *pb.InterchainTxWrappers, 4)
+				ok := func() (ok bool) {
+					defer func() { _ = recover() }()
+					return rt.GetInterchainTxWrappers(c.id, h, h, ch) == nil
+				}()
+				if ok {
+					for range ch {
+					}
+				}
+			}
+			s.res.Count("fault_pier_catch_up_while_competing_block_is_head")
+		}
 	}
 }
